@@ -13,13 +13,18 @@ RULE = ('compound messages of 1..6 units mixing relative, absolute (one and seve
 EXPLANATION = 'path rule theorems on the model; tie by RUN/PROC ops; oracle = independent python simulation of the SCPI path rule'
 
 
-def simulate(iface, msgs):
+def simulate(iface, msgs, stats=None):
     """msgs: list of messages, each a list of units (absolute, mnemonics(list of str), query, entry_args or None)
     -> (log entries, errs) by the SCPI rule."""
     log, errs = [], []
     for units in msgs:
         path = ()
-        for (absolute, mn, query, argtxt) in units:
+        for unit in units:
+            if unit is None:
+                # an empty unit in the middle of a message (`A;;B`): a header is expected there — one error, rest discarded
+                errs.append('-113')
+                break
+            (absolute, mn, query, argtxt) = unit
             up = tuple(m.upper() for m in mn)
             if len(up) == 1 and up[0].startswith('*'):
                 full = up
@@ -39,6 +44,8 @@ def simulate(iface, msgs):
             idx = r[1]
             if idx >= len(iface.decls):
                 log.append(None)         # standard command: no log entry
+                if stats is not None and query:
+                    stats['answers'] = stats.get('answers', 0) + 1
                 continue
             d = iface.decls[idx]
             if d.args and not argtxt:
@@ -46,6 +53,8 @@ def simulate(iface, msgs):
                 continue
             log.append(f'{d.id}({argtxt})')
             errs += G.decl_errs(d)
+            if stats is not None and query and not G.decl_errs(d):
+                stats['answers'] = stats.get('answers', 0) + 1
     return [l for l in log if l is not None], errs
 
 
@@ -57,6 +66,9 @@ def gen_message(rng, iface, n_units, p_bad=0.1):
     units, texts = [], []
     path = ()
     for k in range(n_units):
+        if rng.random() < 0.05 and k + 1 < n_units:
+            units.append(None); texts.append(G.ws(rng, 0, 1))      # empty unit; never the last one (that is the legal trailing `;`)
+            continue
         r = rng.random()
         cands = []
         if r < 0.45 and path is not None:
@@ -97,6 +109,8 @@ def gen_message(rng, iface, n_units, p_bad=0.1):
                 path = full[:-1]
             else:
                 break
+    while units and units[-1] is None:
+        units.pop(); texts.pop()
     sep = lambda: G.ws(rng, 0, 1) + b';' + G.ws(rng, 0, 1)
     text = b''
     for i, t in enumerate(texts):
@@ -117,6 +131,12 @@ def oracle(line, case):
         return f"SCPI path rule selects handlers {case.meta['log']}"
     if errs != case.meta['errs']:
         return f"SCPI path rule gives errors {case.meta['errs']}"
+    if 'answers' in case.meta and f.get('ev', '-') != '-':
+        # each unit finishes, response included, before the next starts: the writer sees, per answered query, its bytes and
+        # then a flush (consecutive writes are reported as one event, so two responses without a flush between them show)
+        evs = parse_list(f.get('ev', '[]'))
+        if len(evs) != 2 * case.meta['answers'] or any(not e.startswith('W:') for e in evs[0::2]) or any(e != 'F' for e in evs[1::2]):
+            return f"{case.meta['answers']} answered queries: expected write, flush for each, in order; events {evs}"
     return None
 
 
@@ -151,11 +171,15 @@ def compound_cases(rng, ifaces, names, n):
                 continue
             t, u = gen_message(rng, iface, rng.randint(1, 6))
             texts.append(t); msgs.append(u)
-        log, errs = simulate(iface, msgs)
+        stats = {}
+        log, errs = simulate(iface, msgs, stats)
         meta = {'log': log, 'errs': errs, 'kind': 'RUN-compound', 'units': sum(len(m) for m in msgs)}
         mode = i % 3
         if mode == 0:
-            op = f'RUN {iface.name} std {hx(b"".join(texts))}'
+            wr = 'pt' if i % 2 else 'std'
+            if wr == 'pt':
+                meta['answers'] = stats.get('answers', 0)
+            op = f'RUN {iface.name} {wr} {hx(b"".join(texts))}'
         elif mode == 1:
             op = f'RUN {iface.name} std ' + '|'.join(hx(t) for t in texts) + (' pend=2' if rng.random() < 0.3 else '')
         else:
